@@ -829,6 +829,8 @@ class Frame:
         args = [self.e(a) for a in call_args(n) if a.get("k") != "CXXDefaultArgExpr"]
         fn = n.get("fn") or ""
         short = fn.split("::")[-1]
+        if short in ("finished", "eval") and (isinstance(o, MatVal) or (isinstance(o, tuple) and o and o[0] == "mat")):
+            return o
         if isinstance(o, MatVal):
             if short in ("rows",):
                 return num(o.rows)
@@ -1035,6 +1037,6 @@ def subterms(t):
         x = stack.pop()
         if isinstance(x, tuple):
             yield x
-            for y in x[1:]:
+            for y in (x[1:] if x and isinstance(x[0], str) else x):
                 if isinstance(y, tuple):
                     stack.append(y)
